@@ -805,6 +805,55 @@ func (w *World) GenOp() Op {
 		if d.Ldr.Transfer.Active {
 			w.St.Hist["gen:leader-with-transfer-active"]++
 		}
+		if d.Ldr.Transfer.NewTermTimer && w.chance(30) {
+			return Op{Kind: "newTermTimeout"} // the target accepted timeout-now but no higher term showed up in time
+		}
+		if d.Ldr.Transfer.RespPending && w.chance(30) {
+			src := d.Ldr.Transfer.Target
+			if src == 0 && len(d.Ldr.Repls) > 0 {
+				src = d.Ldr.Repls[w.Rng.Intn(len(d.Ldr.Repls))].ID
+			}
+			return Op{Kind: "timeoutNowResult", Src: src, Err: w.chance(20), Result: w.pick(1, 1, 1, 9)}
+		}
+		if d.SnapResult != nil && len(d.Ldr.Repls) > 1 && w.chance(35) {
+			// a snapshot is about to be handled while one follower is out of contact and behind: the leader may only
+			// compact later, when the replications have moved their views (leader.removeLTE / checkLogCompact)
+			r0 := d.Ldr.Repls[w.Rng.Intn(len(d.Ldr.Repls))]
+			us := []raft.VReplUpdate{}
+			if !r0.NoContact {
+				us = append(us, raft.VReplUpdate{ID: r0.ID, Kind: "noContact", Flag: true})
+			}
+			for _, r := range d.Ldr.Repls {
+				if r.ID != r0.ID && r.MatchIndex < d.LastLogIndex {
+					us = append(us, raft.VReplUpdate{ID: r.ID, Kind: "matchIndex", Val: d.LastLogIndex})
+				}
+			}
+			ok := len(us) > 0
+			for _, u := range us {
+				ok = ok && w.Node.CanReplUpdate(u)
+			}
+			if ok {
+				return Op{Kind: "replUpdates", Updates: us}
+			}
+		}
+		if d.Ldr.RemoveLTE > d.Log.Prev && len(d.Ldr.Repls) > 0 && w.chance(50) {
+			// the replications report that their views start at the leader's removeLTE: the delayed compaction can run
+			us := []raft.VReplUpdate{}
+			for _, r := range d.Ldr.Repls {
+				if r.RemoveLTE < d.Ldr.RemoveLTE {
+					u := raft.VReplUpdate{ID: r.ID, Kind: "removeLTE", Val: d.Ldr.RemoveLTE}
+					if w.Node.CanReplUpdate(u) {
+						us = append(us, u)
+					}
+				}
+			}
+			if len(us) > 0 {
+				if w.chance(30) {
+					us = us[:1+w.Rng.Intn(len(us))]
+				}
+				return Op{Kind: "replUpdates", Updates: us}
+			}
+		}
 		pendingAct := false
 		for _, n := range d.Configs.Latest.Nodes {
 			if n.Action != 0 {
